@@ -7,6 +7,10 @@ HERE = os.path.dirname(os.path.abspath(__file__))
 
 # property -> (level category, engine/world, technique, level text, level note)
 CHECKS = {
+ "C11": ("fault_enumeration", "CHAIN",
+   "seeded block-tree and offer-schedule generation (in order, out of order, duplicated, batched, interleaved forks, 11 invalid variants, future blocks) against the real InsertChain, combined with crash-point enumeration over the simulated disk's write log (restart of Prefix(k) through the real constructors) and differential non-wedging against the never-crashed node",
+   "A crash point follows every logical database write of the enumerated offers (all points unless a cap of 24/60 forces a stratified sample). On the live node and on every restarted image: canonical index parent-linked from genesis to head, head state opens with the header's roots, tx lookups point into canonical blocks, every canonical block byte-identical to a valid generated block; after re-offering the interrupted offer plus one further valid block the image must reach the live node's head and state. Trees and schedules are sampled.",
+   "Crash model: process death; completed puts/batches durable. Known findings: the head switch is not one atomic write (8 class@window entries, repair is a restructuring). Not decided: fast-sync/light paths, SetHead, concurrent InsertChain callers."),
  "C01": ("exploration", "CHAIN+FORGE",
    "deterministic simulation with a Byzantine block forger: seeded validator sets, protocol tables and real chains (look-back state from the real block-building path); by-construction labelled forgeries (legitimate weight below quorum, compensated with exactly one class of illegitimate material) and positive controls offered to five real verifier paths; independent quorum oracle",
    "Every forgery must be rejected on VerifyHeader, VerifySeal, VerifySideChainHeader and both InsertChain paths (a verifier crash counts as not rejected); every control (honest block, boundary-at-quorum, super-quorum) accepted. 36 forgery kinds. Honest statement of fit: the acceptance function has no schedule in it; the simulation contributes the Byzantine party and real look-back state. Sampling over validator sets, tables and chain lengths.",
